@@ -15,7 +15,7 @@ from symex import Domain, Exec, Lin, Enum, Unknown, Record, Ref, Closure, Sym, S
 from facts import Node, strip_targs
 
 INTEGRAL = {'int', 'unsigned int', 'long', 'unsigned long', 'long long', 'unsigned long long', 'short', 'unsigned short', 'char', 'unsigned char', 'signed char'}
-MUTEX_GUARDS = ('std::unique_lock', 'std::scoped_lock', 'std::lock_guard')
+MUTEX_GUARDS = ('std::unique_lock', 'std::scoped_lock', 'std::lock_guard', 'std::shared_lock')
 RW_GUARDS = {'tulz::rwp::ReadLock': 'R', 'tulz::rwp::WriteLock': 'W'}
 
 
@@ -127,7 +127,7 @@ class EvDomain(Domain):
             cls = n.d.get('class') or ''
             args = [x for x in n.ns('args') if x is not None]
             if cls.startswith(MUTEX_GUARDS) or cls in RW_GUARDS:
-                self.ev(st, Ev('guard', n, name=cls, obj=self.resolve_obj(ex, args[0], st, fr) if args else None, val=RW_GUARDS.get(cls, 'X')), fr)
+                self.ev(st, Ev('guard', n, name=cls, obj=self.resolve_obj(ex, args[0], st, fr) if args else None, val=RW_GUARDS.get(cls, 'R' if cls.startswith('std::shared_lock') else 'X')), fr)
                 return Sym('guard')
             if cls == 'std::thread':
                 vals = [ex._rvalue(a, st, fr) for a in args]
